@@ -150,7 +150,8 @@ def programs(draw):
                     op = ["mset" if types[m]["kind"] == "single" else "mpush", m, 0]
                 elif bad == "undefined":
                     free = [x for x in range(100) if x not in types]
-                    op = [draw(st.sampled_from(["mset", "mpush"])), free[1], 3]
+                    # never-defined types inside and outside the documented 0..99 range
+                    op = [draw(st.sampled_from(["mset", "mpush"])), draw(st.sampled_from([free[1], free[-1], -1, -1, 100, 1000, -7])), 3]
                 elif bad == "set-on-stack" and stacks:
                     op = ["mset", stacks[0], 2]
                 elif bad == "push-on-single" and singles:
